@@ -23,6 +23,31 @@ std::vector<ConfigEntry>& config_table() {
     static std::vector<ConfigEntry> t;
     return t;
 }
+std::vector<ConfigEntry>& scale_table() {
+    static std::vector<ConfigEntry> t;
+    return t;
+}
+
+// ----- runaway-operation bound (see CmpBudget in C01_btree_common.hpp) -----------------------------
+namespace {
+struct RunawayCtx {
+    const char* prefix = "C01";
+    std::string (*describe)(const void*) = nullptr;
+    const void* self = nullptr;
+} g_runaway;
+} // namespace
+void cmp_runaway() {
+    CmpBudget& g = cmp_budget();
+    const unsigned long long lim = g.limit;
+    g.limit = ~0ull; // describing the case must not trip the bound again
+    std::ostringstream os;
+    if (g_runaway.describe && g_runaway.self) os << g_runaway.describe(g_runaway.self);
+    os << "the container made more than " << lim
+       << " key comparisons inside this one operation (the bound is at least 64 times what a B+ tree of this height and node capacity can need): "
+          "the operation does not terminate, the std container answers at once";
+    std::string lab = std::string(g_runaway.prefix) + "/runaway-operation";
+    pbt::fatal(lab.c_str(), os.str()); // no unwinding through the container
+}
 
 namespace {
 
@@ -48,9 +73,9 @@ std::string show(const KD& e) {
 }
 
 class History {
-    static constexpr size_t MAXSIZE = 900; // inserts turn into erasures above this size (bounds the O(n) per-step checks)
-    static constexpr int MAXOPS = 600;     // operations per history
-    static constexpr int MAXSTEPS = 2500;  // compared steps per history (macro operations count each sub-step)
+    size_t MAXSIZE = 900; // inserts turn into erasures above this size (bounds the O(n) per-step checks)
+    int MAXOPS = 600;     // operations per history
+    int MAXSTEPS = 2500;  // compared steps per history (macro operations count each sub-step)
 
     struct Slot {
         std::unique_ptr<ITree> t;
@@ -65,6 +90,7 @@ class History {
     const ConfigEntry& cfg;
     const CfgInfo& ci;
     const bool WM, INV;
+    const bool SC; // scale mode (target btree_scale): huge node capacities, nodes filled first, cost-bounded history
     const char* const prefix;
     Slot s0, s1;
     int U = 8;
@@ -80,6 +106,15 @@ class History {
     bool any_free = false;
     bool force_full = false;
     const char* opname = "";
+    // scale mode
+    unsigned stride = 1;      // distance of neighbouring key classes produced by a fill (gaps allow inserts between them)
+    unsigned sc_rep = 0;      // length class of the runs of equivalent keys produced by a fill (multi containers)
+    bool inner_dim = false;   // the fill sizes aim at the inner node above the leaves (else: at a leaf)
+    long NB = 0;              // largest number of elements a fill may produce
+    unsigned long cost = 0;   // element visits spent so far on per-step checks
+    unsigned long COSTMAX = 0;
+    bool have_arg_key = false;
+    int arg_key = 0;
 
     Slot& S(int c) { return c ? s1 : s0; }
 
@@ -90,6 +125,56 @@ class History {
         os << "] step " << nsteps << " " << opname << ": ";
         return os.str();
     }
+    static std::string describe_for_runaway(const void* self) {
+        const History& h = *static_cast<const History*>(self);
+        std::ostringstream os;
+        os << h.hdr();
+        if (h.have_arg_key) os << "key " << h.arg_key << ", ";
+        os << "container sizes " << h.s0.obs.size() << " / " << h.s1.obs.size() << ", heights " << h.s0.shape.height << " / " << h.s1.shape.height << ": ";
+        return os.str();
+    }
+
+    // ----- runaway-operation bound ----------------------------------------------------------------
+    // A correct B+ tree needs, per key it looks up / inserts / erases, one root-to-leaf descent with one in-node search
+    // per level: <= (slots + 1) comparisons per node with the linear strategy, <= 2*(log2(slots) + 2) with the binary
+    // one, plus a constant number of equality tests; operations on a run of equivalent keys (count, erase(key),
+    // erase(iterator) inside a run) repeat that at most once per entry of the run. The budget below is 64 times that
+    // (height + 3 levels, so that splits during the operation are covered) plus a constant.
+    static unsigned ilog2(unsigned long x) {
+        unsigned r = 0;
+        while (x > 1) x >>= 1, ++r;
+        return r;
+    }
+    void arm(unsigned long long lim) {
+        CmpBudget& g = cmp_budget();
+        g.calls = 0;
+        g.limit = lim;
+    }
+    //! `k` = number of keys the operation handles (entries of a run of equivalent keys count as keys)
+    void arm_keys(unsigned long k) {
+        unsigned long H = (unsigned long)std::max(s0.shape.height, s1.shape.height) + 3;
+        unsigned long cap = (unsigned long)std::max(ci.leaf, ci.inner);
+        unsigned long per = ci.binary ? 2ul * (ilog2(cap) + 3) : cap + 2;
+        arm(64ull * (k + 1) * H * per + 100000ull);
+    }
+    //! whole-container operations (copy, assign, swap, clear, bulk_load, iteration, relational operators) need no
+    //! key comparison at all; allow 64 per element anyway
+    void arm_bulk() { arm(64ull * (s0.obs.size() + s1.obs.size() + 1000)); }
+    void arm_key(unsigned long k, int key) {
+        have_arg_key = true, arg_key = key;
+        arm_keys(k);
+    }
+    void disarm() {
+        CmpBudget& g = cmp_budget();
+        if (g.limit != ~0ull) {
+            unsigned long long pm = g.calls * 1000ull / g.limit;
+            if (pm > g.worst_permille) g.worst_permille = pm;
+            if (pm >= 10) pbt::label("budget:used>=1%");
+        }
+        g.limit = ~0ull;
+        have_arg_key = false;
+    }
+    size_t dups(int c, int k) { return WM ? S(c).m->count(k) : 0; }
 #define BT_CHECK(cond, sub, msgexpr) PBT_CHECK(cond, std::string(prefix) + "/" sub, hdr() << msgexpr)
 
     //! the order the container in slot c uses (C01: the std container's comparator; C02: the tree's own)
@@ -227,7 +312,31 @@ class History {
             BT_CHECK(sl.t->size() == post.size, "inspect-stats", "size() = " << sl.t->size() << " but the leaves hold " << post.size << " entries");
         }
         if (!post.bad) delta_labels(sl.shape, post, oc, target_leaf);
+        if (SC) scale_labels(post);
         sl.shape = std::move(post);
+    }
+
+    //! scale mode: which node fills (relative to the 8-bit / 15-bit / 16-bit thresholds) does the structure show?
+    void scale_labels(const Walk& w) {
+        int lf = 0, inf = 0;
+        for (const Walk::NI& n : w.nodes) {
+            if (n.level == 0) lf = std::max(lf, n.slotuse);
+            else inf = std::max(inf, n.slotuse);
+        }
+        if (lf >= 256) pbt::label("scale:leaf_fill>=256");
+        if (lf > 32768) pbt::label("scale:leaf_fill>32768");
+        if (lf == 65535) pbt::label("scale:leaf_fill=65535");
+        if (lf == ci.leaf) pbt::label("scale:leaf_exactly_full");
+        if (inf >= 256) pbt::label("scale:inner_fill>=256");
+        if (inf > 32768) pbt::label("scale:inner_fill>32768");
+        if (inf == ci.inner) pbt::label("scale:inner_exactly_full");
+        if (inf == 65535) {
+            pbt::label("scale:inner_fill=65535");
+            // an inner node with 65535 keys has 65536 children: a class of its own (the child loops must not use a 16-bit
+            // counter). Can be switched off through a known-findings exclusion; the case then ends here, as passed,
+            // without running any further operation or destructor on that tree.
+            if (pbt::excluded("C01/inner-65535-full")) pbt::finish_case_early();
+        }
     }
 
     void check_ledgers() {
@@ -242,13 +351,19 @@ class History {
 
     //! end of one compared step; `mask` = slots touched by the operation
     void finish(int mask, OpClass oc = OC_OTHER, const void* target_leaf = nullptr, bool mutating = true) {
+        disarm();
         sep_changed = false;
         for (int c = 0; c < 2; ++c) {
             bool touched = (mask >> c) & 1;
+            // scale mode: the O(n) re-observation is spent on the steps that may change a container (every returned value
+            // and position of a query is still compared; a query that damaged the tree is caught by the next mutating step
+            // or by the full comparison of both slots at the end of the history)
+            if (SC && !force_full && (!touched || !mutating)) continue;
             if (!touched && (nsteps & 3) != 3) continue; // the untouched slot is re-checked every 4th step
             if (mutating || !touched) inspect(c, touched ? oc : OC_OTHER, touched ? target_leaf : nullptr);
             observe(c);
             compare_model(c, (mutating && touched) || force_full);
+            cost += 6ul * S(c).obs.size() + 2ul * S(c).shape.nodes.size();
         }
         check_ledgers();
         ++nsteps;
@@ -270,7 +385,74 @@ class History {
     }
 
     // ----- drawing arguments ----------------------------------------------------------------------
+    //! position inside a node (or inside the child array of an inner node) that holds `cnt` entries, by class:
+    //! last / first / around the middle / three quarters / just past a 8-bit or 15-bit threshold / upper half / anywhere
+    size_t pos_in(size_t cnt, unsigned cls) {
+        switch (cls % 10) {
+        case 0: return cnt - 1;
+        case 1: return 0;
+        case 2: return cnt / 2;
+        case 3: return cnt / 2 + (cnt / 2 + 1 < cnt ? 1 : 0);
+        case 4: return cnt >= 2 ? cnt - 2 : 0;
+        case 5: return cnt / 2 ? cnt / 2 - 1 : 0;
+        case 6: return (3 * cnt) / 4;
+        case 7: {
+            static const size_t T[6] = {32769, 32768, 32767, 257, 256, 255};
+            for (size_t t : T)
+                if (t < cnt) return t;
+            return cnt - 1;
+        }
+        case 8: return cnt / 2 + src.index(cnt - cnt / 2);
+        default: return src.index(cnt);
+        }
+    }
+
+    //! rank of the element at a drawn (leaf among the leaves, slot inside the leaf) position of slot c (non-empty)
+    size_t rank_by_position(int c) {
+        const Slot& sl = S(c);
+        const std::vector<int>& lf = sl.shape.leaf_fill;
+        if (lf.empty()) return src.index(sl.obs.size());
+        unsigned cb = src.u8();
+        size_t li = pos_in(lf.size(), cb & 15);
+        size_t slot = pos_in((size_t)lf[li], cb >> 4);
+        size_t off = 0;
+        for (size_t i = 0; i < li; ++i) off += (size_t)lf[i];
+        if (off + slot >= sl.obs.size()) return sl.obs.size() - 1; // (cannot happen while obs and shape belong together)
+        if (lf[li] >= 256 && slot >= 256) pbt::label("scale:key_at_slot>=256");
+        if (slot > 32768) pbt::label("scale:key_at_slot>32768");
+        if (li >= 256) pbt::label("scale:key_under_child>=256");
+        if (li > 32768) pbt::label("scale:key_under_child>32768");
+        return off + slot;
+    }
+
+    //! scale mode: most keys are chosen by their POSITION in the structure last observed (which leaf among its
+    //! siblings, which slot inside that leaf), so that the in-node searches end in the upper part of a big node,
+    //! exactly on / next to a separator, at the first or last slot, ...
+    int draw_key_scale(int c) {
+        unsigned b = src.u8();
+        unsigned mode = b & 7;
+        const Slot& sl = S(c);
+        const std::vector<KD>& o = sl.obs;
+        if (o.empty() || sl.shape.leaf_fill.empty()) return (int)src.range(0, U - 1);
+        if (mode <= 3) {
+            int k = o[rank_by_position(c)].first;
+            unsigned j = (b >> 3) & 3; // 0,1: the key itself; 2: successor value; 3: predecessor value
+            if (j == 2) k += 1;
+            if (j == 3) k -= 1;
+            return k;
+        }
+        if (mode == 4) return (int)src.range(0, U - 1);
+        if (mode == 5) {
+            int k = o[src.index(o.size())].first;
+            if (b & 8) k += (b & 16) ? 1 : -1;
+            return k;
+        }
+        if (mode == 6) return recent_key + (int)((b >> 3) % 3) - 1;
+        return (b & 8) ? U + (int)(b >> 4) : -1 - (int)(b >> 4);
+    }
+
     int draw_key(int c) {
+        if (SC) return draw_key_scale(c);
         unsigned b = src.u8();
         unsigned mode = b & 7;
         const std::vector<KD>& o = S(c).obs;
@@ -322,6 +504,7 @@ class History {
         if (WM) lbr = sl.m->lower_rank(k), ubr = sl.m->upper_rank(k);
         Pos p;
         bool ok = true, have_ok = false;
+        arm_key(2, k);
         sl.t->insert(k, d, two | (with_hint ? 2u : 0u), hint_rank, n, p, ok, have_ok, WM);
         if (WM) {
             size_t er = 0;
@@ -356,6 +539,7 @@ class History {
         pbt::label("op:insert_range");
         PBT_LOG("#" << nsteps << " " << opname << " slot " << c << " " << show(ks, ci.is_map()) << "\n");
         int hb = sl.shape.height;
+        arm_keys(ks.size());
         sl.t->insert_range(ks);
         if (WM) sl.m->insert_range(ks);
         recent_key = ks.back().first;
@@ -372,6 +556,7 @@ class History {
         int hb = sl.shape.height;
         const size_t before = sl.obs.size();
         const void* target = nullptr;
+        arm_key(3 + dups(c, k), k);
         if (before) { // which leaf will lose an entry (for the shift/merge labels only)
             Pos lp;
             sl.t->locate(3, 0, before, k, lp, false);
@@ -421,6 +606,7 @@ class History {
         PBT_LOG("#" << nsteps << " " << opname << " slot " << c << " k=" << k << "\n");
         recent_key = k;
         int hb = sl.shape.height;
+        arm_key(2 + dups(c, k), k);
         size_t n = sl.t->erase_key(k);
         if (WM) {
             size_t e = sl.m->erase_key(k);
@@ -439,6 +625,8 @@ class History {
         opname = "erase(iterator)";
         int hb = sl.shape.height;
         Pos p;
+        if (how >= 2) arm_key(3 + dups(c, k), k);
+        else arm_keys(2);
         sl.t->locate(how, rank, n, k, p, true);
         need_reachable(p, howname, n);
         if (WM && how >= 2) { // the iterator came from find / lower_bound: check it like a lookup
@@ -467,6 +655,7 @@ class History {
                 if (sl.shape.dup_spans && sl.t->leaf_at(lo, n) != sl.t->leaf_at(hi - 1, n)) pbt::label("erase_iter_dup_run_spans_leaves");
             }
         }
+        arm_key(3 + dups(c, x.first), x.first); // (the run of equivalent keys may have to be walked child by child)
         sl.t->erase_cursor();
         if (WM) sl.m->erase_rank(p.rank);
         note_mutation(c, true, hb);
@@ -484,6 +673,7 @@ class History {
             PBT_LOG("#" << nsteps << " " << opname << " slot " << c << " k=" << k << " d=" << d << "\n");
             Pos p;
             bool ok, have_ok;
+            arm_key(4 + dups(c, k), k);
             sl.t->insert(k, d, 0, 0, sl.obs.size(), p, ok, have_ok, false);
             if (WM) {
                 size_t er;
@@ -502,7 +692,7 @@ class History {
         }
         if (sl.obs.empty()) return;
         if (how == 0 || how == 3) {
-            size_t r = src.index(sl.obs.size());
+            size_t r = SC ? rank_by_position(c) : src.index(sl.obs.size());
             do_erase_iter(c, src.boolean() ? 1 : 0, r, 0, "iterator at rank");
         }
         else {
@@ -516,9 +706,10 @@ class History {
         Slot& sl = S(c);
         pbt::label("op:erase_sweep");
         unsigned count = (unsigned)src.range(1, 24);
+        if (SC) count = 1 + (count - 1) % 6; // every erasure is a fully compared O(n) step
         unsigned how = (unsigned)src.index(4);
-        size_t start = src.index(sl.obs.size() + 1);
-        for (unsigned i = 0; i < count && !sl.obs.empty() && nsteps < MAXSTEPS; ++i) {
+        size_t start = SC && !sl.obs.empty() ? rank_by_position(c) : src.index(sl.obs.size() + 1);
+        for (unsigned i = 0; i < count && !sl.obs.empty() && nsteps < MAXSTEPS && !(SC && cost > COSTMAX); ++i) {
             size_t n = sl.obs.size();
             size_t r = start < n ? start : n - 1;
             if (how == 0) do_erase_iter(c, r <= n / 2 ? 0 : 1, r, 0, "iterator at rank (sweep)");
@@ -543,6 +734,7 @@ class History {
         else
             for (const KD& e : sl.obs) cnt += equiv(c, e.first, k);
         if (sep_changed_prev) pbt::label("lookup_after_separator_change");
+        arm_key(2 + cnt, k);
         if (q == 0) {
             bool r = t.exists(k);
             if (WM) BT_CHECK(r == (cnt > 0), "lookup", "exists(" << k << ") = " << r << ", std count = " << cnt);
@@ -591,6 +783,7 @@ class History {
         if (WM) lbr = sl.m->lower_rank(k), ubr = sl.m->upper_rank(k);
         Pos a, b;
         unsigned which = q % 3;
+        arm_key(3 + (ubr - lbr), k);
         sl.t->bound(k, which, q >= 3, a, b, WM, sl.obs.size());
         if (which == 0) check_pos(c, a, lbr, "lower");
         else if (which == 1) check_pos(c, a, ubr, "upper");
@@ -630,6 +823,7 @@ class History {
         };
         PBT_LOG("#" << nsteps << " walk " << kindname << " slot " << c << " from " << pos << ":");
         WalkState st, old;
+        arm_bulk();
         t.walk_start(kind, pos, n);
         t.walk_state(pos < n, st);
         check_here(st, pos, "start");
@@ -661,6 +855,7 @@ class History {
         PBT_LOG("#" << nsteps << " clear slot " << c << " (size " << sl.obs.size() << ")\n");
         int hb = sl.shape.height;
         bool had = !sl.obs.empty();
+        arm_bulk();
         sl.t->clear();
         if (WM) sl.m->clear();
         if (had) note_mutation(c, false, hb);
@@ -673,6 +868,7 @@ class History {
         opname = "copy constructor";
         pbt::label("op:copy_construct");
         PBT_LOG("#" << nsteps << " slot " << j << " = new Tree(slot " << c << ") (size " << S(c).obs.size() << ")\n");
+        arm_bulk();
         std::unique_ptr<ITree> n(S(c).t->clone());
         S(j).t = std::move(n); // destroys the previous container of slot j
         if (WM && j != c) S(j).m.reset(S(c).m->clone());
@@ -687,6 +883,7 @@ class History {
         pbt::label(j == c ? "op:assign_self" : "op:assign");
         PBT_LOG("#" << nsteps << " slot " << j << " = slot " << c << " (sizes " << S(j).obs.size() << " <- " << S(c).obs.size() << ")\n");
         if (j != c && S(j).shape.height >= 2) pbt::label("assign_over_multi_level");
+        arm_bulk();
         S(j).t->assign(*S(c).t);
         if (WM && j != c) S(j).m->assign(*S(c).m);
         if (j != c) S(j).bulk_pending = false;
@@ -697,6 +894,7 @@ class History {
         opname = "swap";
         pbt::label("op:swap");
         PBT_LOG("#" << nsteps << " slot0.swap(slot1) (sizes " << s0.obs.size() << ", " << s1.obs.size() << ")\n");
+        arm_bulk();
         s0.t->swap(*s1.t);
         if (WM) s0.m->swap(*s1.m);
         std::swap(s0.bulk_pending, s1.bulk_pending);
@@ -713,6 +911,7 @@ class History {
         opname = names[variant];
         pbt::label(variant >= 3 ? "op:range_construct" : "op:construct_empty");
         PBT_LOG("#" << nsteps << " slot " << c << " = " << opname << " " << show(ks, ci.is_map()) << "\n");
+        arm_keys(ks.size() + 1);
         std::unique_ptr<ITree> n(sl.t->make(variant, ks, shift, desc));
         sl.t = std::move(n); // destroys the previous container
         if (WM) sl.m.reset(sl.m->make(variant == 1 || variant == 4, ks, shift, desc));
@@ -720,42 +919,91 @@ class History {
         finish(1 << c, OC_OTHER);
     }
 
-    void op_bulk_load(int c) {
+    //! n entries sorted by the comparator of slot c: strictly increasing equivalence classes (`step` apart) for the
+    //! unique containers, runs of 3 / 5 / 7 equivalent keys for rep = 1 / 2 / 3
+    void sorted_keys(int c, long n, unsigned rep, unsigned step, std::vector<KD>& ks) {
         Slot& sl = S(c);
-        if (!sl.obs.empty()) op_clear(c); // bulk_load() is defined for an empty tree only
-        const long L = ci.leaf, I = ci.inner;
-        unsigned variant = (unsigned)src.index(5);
-        long jit = (long)src.index(3) - 1; // -1, 0, +1
-        long n;
-        switch (variant) {
-        case 0: n = src.range(0, 3 * L); break;
-        case 1: n = (long)src.range(1, 12) * L + jit; break;
-        case 2: n = L * (I + 1) + jit; break;
-        case 3: n = L * (I + 1) * (I + 1) + jit; break;
-        default: n = (long)src.range(1, 6) * L * (I + 1) + jit; break;
-        }
-        if (n > (long)MAXSIZE) n = (long)src.range(1, 12) * L + jit;
-        if (n < 0) n = 0;
-        // strictly increasing equivalence classes for the unique containers, runs of equivalent keys otherwise
-        unsigned rep = ci.multi() ? (unsigned)src.index(4) : 0;
         unsigned sh = 0;
         bool ds = false;
         if (WM) sl.m->cmp_state(sh, ds);
         else sl.t->cmp_state(sh, ds);
-        std::vector<KD> ks;
         int cls = 0;
+        ks.reserve((size_t)n);
         for (long i = 0; i < n; ++i) {
             int low = sh ? (int)((unsigned)i & ((1u << sh) - 1)) : 0;
-            ks.push_back(KD((cls << sh) | low, fresh_datum()));
+            ks.push_back(KD(((cls * (int)step) << sh) | low, fresh_datum()));
             if (!rep || ((i + 1) % (1 + (long)rep * 2)) == 0) ++cls; // runs of 3, 5, 7 entries per class
         }
         std::stable_sort(ks.begin(), ks.end(), [&](const KD& a, const KD& b) { return less(c, a.first, b.first); });
+    }
+
+    //! scale mode: how many elements the next fill loads. `f` = wanted number of entries of the big node(s), drawn
+    //! relative to the capacity C of that node kind (more than half, exactly full +-1, one more node, at an 8-/15-/16-bit
+    //! threshold, anything); leaf dimension: n = f; inner dimension: f separators = f+1 leaves.
+    long draw_scale_n(bool by_insert) {
+        const long L = ci.leaf, I = ci.inner;
+        const long C = inner_dim ? I : L;
+        unsigned cls = (unsigned)src.weighted({3, 2, 2, 2, 1});
+        long f;
+        switch (cls) {
+        case 0: f = src.range(C / 2, C); break;
+        case 1: f = C + (long)src.index(3) - 1; break;
+        case 2: f = src.range(C + 1, 2 * C + 2); break;
+        case 3: {
+            static const long T[9] = {255, 256, 257, 32767, 32768, 32769, 43691, 65534, 65535};
+            size_t cnt = 0;
+            while (cnt < 9 && T[cnt] <= 2 * C + 2) ++cnt;
+            f = cnt ? T[src.index(cnt)] : C;
+            break;
+        }
+        default: f = src.range(1, 2 * C + 2); break;
+        }
+        static const char* fl[5] = {"scale:fill_half..full", "scale:fill_full+-1", "scale:fill_second_node", "scale:fill_at_threshold", "scale:fill_any"};
+        pbt::label(fl[cls]);
+        long n = f;
+        if (inner_dim) {
+            long per = by_insert ? std::max(1l, L / 2) : L; // ascending inserts leave the split-off leaves half full
+            n = (f + 1) * per - (long)src.index((size_t)per);
+        }
+        if (n > NB) n = NB;
+        if (n < 0) n = 0;
+        return n;
+    }
+
+    void op_bulk_load(int c) {
+        Slot& sl = S(c);
+        if (!sl.obs.empty()) op_clear(c); // bulk_load() is defined for an empty tree only
+        const long L = ci.leaf, I = ci.inner;
+        long n;
+        unsigned rep;
+        if (SC) {
+            n = draw_scale_n(false);
+            rep = sc_rep;
+        }
+        else {
+            unsigned variant = (unsigned)src.index(5);
+            long jit = (long)src.index(3) - 1; // -1, 0, +1
+            switch (variant) {
+            case 0: n = src.range(0, 3 * L); break;
+            case 1: n = (long)src.range(1, 12) * L + jit; break;
+            case 2: n = L * (I + 1) + jit; break;
+            case 3: n = L * (I + 1) * (I + 1) + jit; break;
+            default: n = (long)src.range(1, 6) * L * (I + 1) + jit; break;
+            }
+            if (n > (long)MAXSIZE) n = (long)src.range(1, 12) * L + jit;
+            if (n < 0) n = 0;
+            // strictly increasing equivalence classes for the unique containers, runs of equivalent keys otherwise
+            rep = ci.multi() ? (unsigned)src.index(4) : 0;
+        }
+        std::vector<KD> ks;
+        sorted_keys(c, n, rep, SC ? stride : 1u, ks);
         opname = "bulk_load(first,last)";
         pbt::label("op:bulk_load");
         if (n > 0 && n % L == 0) pbt::label("bulk_exact_multiple");
         if (n == L * (I + 1) || n == L * (I + 1) * (I + 1)) pbt::label("bulk_exact_full_level");
         if (n > L) pbt::label("bulk_multi_leaf");
         PBT_LOG("#" << nsteps << " " << opname << " slot " << c << " n=" << n << " " << show(ks, ci.is_map()) << "\n");
+        arm_bulk();
         sl.t->bulk_load(ks);
         if (WM) sl.m->append(ks);
         if (!ks.empty()) recent_key = ks[ks.size() / 2].first;
@@ -769,6 +1017,7 @@ class History {
         opname = "relational operators";
         pbt::label("op:relops");
         bool r[6];
+        arm_bulk();
         S(i).t->relops(*S(j).t, r);
         PBT_LOG("#" << nsteps << " relops slot " << i << " vs slot " << j << ": == " << r[0] << " < " << r[2] << "\n");
         if (WM) {
@@ -805,6 +1054,7 @@ class History {
             op_clear(0);
             std::vector<KD> ks;
             draw_pattern(ks, 9);
+            arm_keys(ks.size());
             s0.t->insert_range(ks);
             opname = "reuse after clear()";
             finish(1, OC_INSERT);
